@@ -726,18 +726,22 @@ where
                 crate::verif_hooks::tensor_hex(&self.position)
             )
         });
-        let mut eta =
-            T::one() / T::from(self.m + self.t_0).expect("successful conversion of m + t_0 to T");
-        self.h_bar = (T::one() - eta) * self.h_bar
-            + eta
-                * (self.target_accept_p
-                    - alpha / T::from(n_alpha).expect("successful conversion of n_alpha to T"));
         if self.m <= self.n_discard {
+            // Dual averaging (Hoffman & Gelman, Alg. 6): the statistics are only updated while adapting, and the
+            // step size is kept inside the positive finite range of `T` (exp under-/overflows for extreme h_bar).
+            let clamp = |e: T| e.max(T::min_positive_value()).min(T::max_value());
+            let mut eta = T::one()
+                / T::from(self.m + self.t_0).expect("successful conversion of m + t_0 to T");
+            self.h_bar = (T::one() - eta) * self.h_bar
+                + eta
+                    * (self.target_accept_p
+                        - alpha / T::from(n_alpha).expect("successful conversion of n_alpha to T"));
             let _m = T::from(self.m).expect("successful conversion of m to T");
-            self.epsilon = T::exp(self.mu - T::sqrt(_m) / self.gamma * self.h_bar);
+            self.epsilon = clamp(T::exp(self.mu - T::sqrt(_m) / self.gamma * self.h_bar));
             eta = _m.powf(-self.kappa);
-            self.epsilon_bar =
-                T::exp((T::one() - eta) * T::ln(self.epsilon_bar) + eta * T::ln(self.epsilon));
+            self.epsilon_bar = clamp(T::exp(
+                (T::one() - eta) * T::ln(self.epsilon_bar) + eta * T::ln(self.epsilon),
+            ));
         } else {
             self.epsilon = self.epsilon_bar;
         }
